@@ -292,4 +292,37 @@ BestRank(U, sig, V, k) ==
 StrictlyDecreasingPositive(sig) ==
     /\ \A i \in 1..Len(sig): sig[i] > 0
     /\ \A i \in 1..(Len(sig) - 1): sig[i] > sig[i + 1]
+
+---------------------------------------------------------------------------
+(* C16 extensions: trailing triplets, Hermitian matrices given by their    *)
+(* spectral decomposition, the scaling law of the pseudo-inverse           *)
+\* sum of the triplets lo..hi of U Sigma V^H (1 <= lo <= hi <= Len(sig)); lo = 1: BestRank, hi = Len(sig): the
+\* hi - lo + 1 SMALLEST triplets (what `which = "SM"` asks for)
+TripletSum(U, sig, V, lo, hi) ==
+    LET w == hi - lo + 1
+        idx == [i \in 1..w |-> lo + i - 1]
+    IN MNormalize(MMul(MMul(MGather(U, Iota(U.r), idx), SigmaMat(w, w, SubSeq(sig, lo, hi))),
+                       MAdj(MGather(V, Iota(V.r), idx))))
+
+\* A Hermitian matrix with unitary eigenvector matrix W and non-zero real (integer) eigenvalues lam, LISTED BY
+\* DECREASING MODULUS: A = W diag(lam) W^H is a singular value decomposition up to signs,
+\*     Sigma = diag |lam|,   V = W,   U = W diag(sign lam)      (column j of U carries the sign of lam[j]).
+SignOf(x) == IF x < 0 THEN -1 ELSE 1
+AbsSeq(lam) == [i \in 1..Len(lam) |-> Abs(lam[i])]
+HermLeft(W, lam) == MkMatD(W.r, W.c, W.d, LAMBDA i, j: CScaleI(SignOf(lam[j]), W.e[i][j]))
+SpectralForm(W, lam) == MMul(MMul(W, MDiagOf([i \in 1..Len(lam) |-> CInt(lam[i])])), MAdj(W))
+IsIndefiniteSpectrum(lam) == (\E i \in 1..Len(lam): lam[i] > 0) /\ (\E i \in 1..Len(lam): lam[i] < 0)
+\* some negative eigenvalue has a larger modulus than some positive one: listed by increasing VALUE the signs are
+\* (-, .., -, +, .., +), listed by increasing MODULUS they are not, so signs (the difference between U and V) cannot
+\* be carried over from one ordering to the other
+NegativeDominatesPositive(lam) == \E i \in 1..Len(lam): \E j \in (i + 1)..Len(lam): lam[i] < 0 /\ lam[j] > 0
+
+\* SCALING LAW: pinv(c A) = pinv(A) / c for every scalar c # 0, c a Gaussian rational [n |-> <<re, im>>, d |-> d]:
+\* the minimum-norm least-squares solution of (c A) x = b is x / c.  Stated both through the normal equations
+\* (PinvSolve of the scaled matrix) and through the Moore-Penrose characterisation of the scaled candidate.
+PinvScaled(A, b, c) == MScale(QInv(c), PinvSolve(A, b))
+PinvScalingLaw(A, b, c) ==
+    LET cA == MScale(c, A)
+    IN /\ MEq(PinvSolve(cA, b), PinvScaled(A, b, c))
+       /\ IsMinNormLsq(cA, b, PinvScaled(A, b, c))
 =============================================================================
